@@ -239,7 +239,10 @@ fn main() {
             }
             "exit" => std::process::exit(p[1].parse().unwrap()),
             "raise" => unsafe {
-                libc::raise(p[1].parse().unwrap());
+                // the Rust runtime of this stub ignores SIGPIPE and handles SIGSEGV/SIGBUS itself: die of the signal
+                let sig: i32 = p[1].parse().unwrap();
+                libc::signal(sig, libc::SIG_DFL);
+                libc::raise(sig);
             },
             "hold" => std::thread::sleep(std::time::Duration::from_secs(3600)),
             _ => {}
